@@ -543,6 +543,12 @@ class Engine:
         return self.binop(node.op, a, b, st, node.lineno)
 
     def binop(self, op, a: V, b: V, st, lineno) -> V:
+        if isinstance(a, VOpt):
+            self.safety(st, z3.Not(a.is_none), "TypeError", lineno, "operand-None")
+            a = a.val
+        if isinstance(b, VOpt):
+            self.safety(st, z3.Not(b.is_none), "TypeError", lineno, "operand-None")
+            b = b.val
         if isinstance(a, VRec):
             name = {ast.BitAnd: "__and__", ast.BitOr: "__or__", ast.Add: "__add__", ast.Sub: "__sub__"}.get(type(op))
             m = self.method_contract(a.cls, name) if name else None
@@ -946,6 +952,11 @@ class Engine:
         if isinstance(node.func, ast.Attribute) and node.func.attr == "join" and len(node.args) == 1:
             sep = self.ev(node.func.value, st)
             return self.join(sep, self.ev(node.args[0], st), st, node.lineno)
+        ghost_calls = (self.c.path_hints or {}).get("calls", {})
+        if ghost_calls:
+            txt = ast.unparse(node)
+            if txt in ghost_calls:
+                return st.env[ghost_calls[txt]]
         if any(isinstance(a, ast.Starred) for a in node.args):
             raise Unsupported("starred call argument")
         if isinstance(node.func, ast.Attribute) and isinstance(node.func.value, ast.Name) \
@@ -1207,7 +1218,23 @@ class Engine:
         for s in stmts:
             nxt: List[State] = []
             for cur in live:
-                for o in self.exec_stmt(s, cur):
+                n_obl = len(self.obls)
+                try:
+                    res = self.exec_stmt(s, cur)
+                except Unsupported as exc:
+                    # a construct outside the subset is tolerated iff the state reaching it is infeasible
+                    sol = z3.Solver()
+                    sol.set("timeout", 5000)
+                    sol.add(*self.axioms)
+                    sol.add(*cur.pc)
+                    if sol.check() != z3.unsat:
+                        raise
+                    del self.obls[n_obl:]
+                    note = f"infeasible state at L{s.lineno} not modelled ({str(exc)[:80]})"
+                    if note not in self.dropped:
+                        self.dropped.append(note)
+                    continue
+                for o in res:
                     if o.kind == "fall":
                         nxt.append(o.st)
                     else:
@@ -1243,8 +1270,10 @@ class Engine:
         if isinstance(s.value, ast.Constant):
             return [Outcome("fall", st)]          # doc-string
         v = s.value
-        if isinstance(v, ast.Call) and isinstance(v.func, ast.Attribute) and isinstance(v.func.value, ast.Name) \
-                and v.func.value.id in ("logger", "logging", "LOGGER"):
+        def _is_logger(e):
+            return (isinstance(e, ast.Name) and e.id in ("logger", "logging", "LOGGER")) or \
+                   (isinstance(e, ast.Attribute) and e.attr == "logger")
+        if isinstance(v, ast.Call) and isinstance(v.func, ast.Attribute) and _is_logger(v.func.value):
             if "logger call" not in self.dropped: self.dropped.append("logger call")
             return [Outcome("fall", st)]
         self.ev(v, st)
@@ -1268,6 +1297,11 @@ class Engine:
         return [Outcome("fall", st)]
 
     def st_AugAssign(self, s, st):
+        if isinstance(s.target, ast.Attribute):
+            load = ast.Attribute(value=s.target.value, attr=s.target.attr, ctx=ast.Load(), lineno=s.lineno, col_offset=0)
+            val = self.binop(s.op, self.ev(load, st), self.ev(s.value, st), st, s.lineno)
+            self.bind_target(s.target, val, st, s.lineno)
+            return [Outcome("fall", st)]
         if not isinstance(s.target, ast.Name):
             raise Unsupported("augmented assignment to non-name")
         cur = self.ev(ast.Name(id=s.target.id, ctx=ast.Load(), lineno=s.lineno, col_offset=0), st)
@@ -1302,11 +1336,28 @@ class Engine:
         c = self.truthy(self.ev(s.test, st))
         outs: List[Outcome] = []
         if not is_false(c):
-            outs += self.exec_block(s.body, st.fork(c))
+            outs += self.branch(s.body, st.fork(c))
         if not is_true(c):
             st_else = st.fork(z3.Not(c))
-            outs += self.exec_block(s.orelse, st_else) if s.orelse else [Outcome("fall", st_else)]
+            outs += self.branch(s.orelse, st_else) if s.orelse else [Outcome("fall", st_else)]
         return outs
+
+    def branch(self, stmts, st: State) -> List[Outcome]:
+        """a branch containing constructs outside the subset is tolerated iff it is
+        infeasible under the path condition (decided by the solver, not assumed)"""
+        n_obl = len(self.obls)
+        try:
+            return self.exec_block(stmts, st)
+        except Unsupported as exc:
+            sol = z3.Solver()
+            sol.set("timeout", 5000)
+            sol.add(*self.axioms)
+            sol.add(*st.pc)
+            if sol.check() == z3.unsat:
+                del self.obls[n_obl:]
+                self.dropped.append(f"infeasible branch at L{stmts[0].lineno} not modelled ({exc})")
+                return []
+            raise
 
     def st_FunctionDef(self, s, st):
         key = f"{self.c.qualname}.<locals>.{s.name}"
@@ -1396,6 +1447,30 @@ class Engine:
     def st_While(self, s, st):
         if s.orelse:
             raise Unsupported("while-else")
+        if not hasattr(self, "_loop_ids"):
+            self._loop_ids = None
+            del self._loop_ids
+        mode = None
+        modes = (self.c.path_hints or {}).get("loops_mode", {})
+        if modes:
+            loops = sorted([n for n in ast.walk(self.fnode) if isinstance(n, (ast.For, ast.While))],
+                           key=lambda n: (n.lineno, n.col_offset))
+            mode = modes.get(loops.index(s))
+        if mode in ("skip", "first_iteration"):
+            # exact treatment of *some* paths only: the loop is not entered ("skip"), or its body is run once
+            # and paths reaching the end of the body are not part of this obligation set ("first_iteration")
+            g = self.truthy(self.ev(s.test, st))
+            outs: List[Outcome] = []
+            if mode == "first_iteration" and not is_false(g):
+                for o in self.branch(s.body, st.fork(g)):
+                    if o.kind in ("return", "raise"):
+                        outs.append(o)
+            note = f"loop at L{s.lineno}: mode {mode} -- " + ("paths entering the loop" if mode == "skip" else "paths completing an iteration") + " are not part of this obligation set"
+            if note not in self.dropped:
+                self.dropped.append(note)
+            if not is_true(g):
+                outs.append(Outcome("fall", st.fork(z3.Not(g))))
+            return outs
         spec = self.loop_spec(s.lineno, s)
         inv_text = spec["invariant"]
         var_text = spec.get("variant")
